@@ -77,8 +77,6 @@ structure Step where
   diags : List LDiag        -- offsets relative to the start of the token
   deriving Repr
 
-def plain (n : Nat) : Step := ⟨n, .code, []⟩
-
 /-- exponent part of a real literal: `[eE][+-]?digit+`, 0 when absent -/
 def expLen : List Char → Nat
   | e :: r =>
@@ -91,75 +89,100 @@ def expLen : List Char → Nat
     else 0
   | [] => 0
 
-/-- one longest-match step in condition `code`; input non-empty -/
-def stepCode (c : Char) (r : List Char) : Step :=
-  if c = ' ' || c = '\t' then plain (1 + spanLen (fun x => x = ' ' || x = '\t') r)
-  else if c = '\n' then plain 1
+/-- number of characters the longest-match rule of condition `code` consumes at `c :: r` -/
+def codeLen (c : Char) (r : List Char) : Nat :=
+  if c = ' ' || c = '\t' then 1 + spanLen (fun x => x = ' ' || x = '\t') r
+  else if c = '\n' then 1
   else if c = '-' then
     match r with
     | '-' :: r' =>
       let n := spanLen (fun x => x ≠ '\n') r'
-      if (r'.drop n).isEmpty then plain 1 else plain (n + 3)     -- the remark rule needs its newline
-    | _ => plain 1
+      if (r'.drop n).isEmpty then 1 else n + 3     -- the remark rule needs its newline
+    | _ => 1
   else if c = '(' then
     match r with
-    | '*' :: _ => ⟨2, .comment 1, []⟩
-    | _ => plain 1
+    | '*' :: _ => 2
+    | _ => 1
   else if isDigit c then
     let n := 1 + spanLen isDigit r
     match r.drop (n - 1) with
     | '.' :: r' =>
       let f := spanLen isDigit r'
-      plain (n + 1 + f + expLen (r'.drop f))
-    | _ => plain n
+      n + 1 + f + expLen (r'.drop f)
+    | _ => n
   else if c = '%' then
     let n := spanLen (fun x => x = '0' || x = '1') r
-    if n = 0 then ⟨1, .code, [⟨LibErrors.UNEXPECTED_CHARACTER, 0, some (.chr c.toNat)⟩]⟩ else plain (n + 1)
-  else if isLetter c then plain (1 + spanLen isIdChar r)
-  else if c = '_' then
-    let n := spanLen isIdChar r
-    ⟨n + 1, .code, [⟨LibErrors.BAD_IDENTIFIER, 0, some (.str (c :: r.take n))⟩]⟩
+    if n = 0 then 1 else n + 1
+  else if isLetter c then 1 + spanLen isIdChar r
+  else if c = '_' then spanLen isIdChar r + 1
   else if c = '\'' then
     match strScan r 1 none with
-    | .terminated n => plain n
-    | .unterminated n => ⟨n, .code, [⟨LibErrors.UNTERMINATED_STRING, 0, none⟩]⟩
-    | .noMatch => plain 1
+    | .terminated n => n
+    | .unterminated n => n
+    | .noMatch => 1
   else if c = '"' then
     let n := spanLen (fun x => x ≠ '"' && x ≠ '\n') r
     match r.drop n with
-    | '"' :: _ => ⟨n + 2, .code, encodedDiags (r.take n) 0⟩
-    | '\n' :: _ =>
-      -- yytext keeps the newline and has no closing quote to strip
-      ⟨n + 2, .code, ⟨LibErrors.UNTERMINATED_STRING, 0, none⟩ :: encodedDiags (r.take (n + 1)) 0⟩
-    | _ => plain 1
+    | '"' :: _ => n + 2
+    | '\n' :: _ => n + 2
+    | _ => 1
   else if c = ';' then
     let w := spanLen (fun x => x = ' ' || x = '\t') r
     match r.drop w with
     | '-' :: '-' :: r' =>
       let n := spanLen (fun x => x ≠ '\n') r'
-      if (r'.drop n).isEmpty then plain 1 else plain (1 + w + 2 + n + 1)
-    | _ => plain 1
+      if (r'.drop n).isEmpty then 1 else 1 + w + 2 + n + 1
+    | _ => 1
   else if c = ':' then
     match r with
-    | '=' :: ':' :: _ => plain 3
-    | '<' :: '>' :: ':' :: _ => plain 4
-    | '=' :: _ => plain 2
-    | _ => plain 1
-  else if c = '|' then (match r with | '|' :: _ => plain 2 | _ => plain 1)
+    | '=' :: ':' :: _ => 3
+    | '<' :: '>' :: ':' :: _ => 4
+    | '=' :: _ => 2
+    | _ => 1
+  else if c = '|' then (match r with | '|' :: _ => 2 | _ => 1)
   else if c = '*' then
     match r with
-    | '*' :: _ => plain 2
-    | ')' :: _ => ⟨2, .code, [⟨LibErrors.UNMATCHED_CLOSE_COMMENT, 0, none⟩]⟩
-    | _ => plain 1
+    | '*' :: _ => 2
+    | ')' :: _ => 2
+    | _ => 1
   else if c = '<' then
     match r with
-    | '*' :: _ => plain 2
-    | '=' :: _ => plain 2
-    | '>' :: _ => plain 2
-    | _ => plain 1
-  else if c = '>' then (match r with | '=' :: _ => plain 2 | _ => plain 1)
-  else if isIllegal c then ⟨1, .code, [⟨LibErrors.UNEXPECTED_CHARACTER, 0, some (.chr c.toNat)⟩]⟩
-  else plain 1
+    | '*' :: _ => 2
+    | '=' :: _ => 2
+    | '>' :: _ => 2
+    | _ => 1
+  else if c = '>' then (match r with | '=' :: _ => 2 | _ => 1)
+  else 1
+
+/-- the diagnostics of the rule that matches at `c :: r` in condition `code` (offsets relative to `c`).  The tests on `c` are
+    mutually exclusive with the other rules' (distinct characters / character classes), so their order does not matter -/
+def codeDiags (c : Char) (r : List Char) : List LDiag :=
+  if c = '%' then
+    (if spanLen (fun x => x = '0' || x = '1') r = 0 then [⟨LibErrors.UNEXPECTED_CHARACTER, 0, some (.chr c.toNat)⟩] else [])
+  else if c = '_' then
+    [⟨LibErrors.BAD_IDENTIFIER, 0, some (.str (c :: r.take (spanLen isIdChar r)))⟩]
+  else if c = '\'' then
+    (match strScan r 1 none with
+     | .unterminated _ => [⟨LibErrors.UNTERMINATED_STRING, 0, none⟩]
+     | _ => [])
+  else if c = '"' then
+    let n := spanLen (fun x => x ≠ '"' && x ≠ '\n') r
+    match r.drop n with
+    | '"' :: _ => encodedDiags (r.take n) 0
+    | '\n' :: _ =>
+      -- yytext keeps the newline and has no closing quote to strip
+      ⟨LibErrors.UNTERMINATED_STRING, 0, none⟩ :: encodedDiags (r.take (n + 1)) 0
+    | _ => []
+  else if c = '*' then
+    (match r with
+     | ')' :: _ => [⟨LibErrors.UNMATCHED_CLOSE_COMMENT, 0, none⟩]
+     | _ => [])
+  else if isIllegal c then [⟨LibErrors.UNEXPECTED_CHARACTER, 0, some (.chr c.toNat)⟩]
+  else []
+
+/-- one longest-match step in condition `code`; input non-empty -/
+def stepCode (c : Char) (r : List Char) : Step :=
+  ⟨codeLen c r, (if c = '(' then (match r with | '*' :: _ => .comment 1 | _ => .code) else .code), codeDiags c r⟩
 
 /-- one step in condition `comment` at nesting depth `d` (≥ 1) -/
 def stepComment (d : Nat) (c : Char) (r : List Char) : Step :=
